@@ -123,7 +123,7 @@ class Compiler:
 
     def compile(self, node: Program) -> CompiledFunction:
         """Compile a program to bytecode."""
-        body = node.body
+        body = self._hoist_functions(node.body)
 
         # Compile all statements except the last one
         for stmt in body[:-1] if body else []:
@@ -147,6 +147,14 @@ class Compiler:
             num_locals=len(self.locals),
             source_map=self.source_map,
         )
+
+    @staticmethod
+    def _hoist_functions(body: List[Node]) -> List[Node]:
+        """Function declarations take effect before any statement of their body runs."""
+        funcs = [stmt for stmt in body if isinstance(stmt, FunctionDeclaration)]
+        if not funcs:
+            return body
+        return funcs + [s for s in body if not isinstance(s, FunctionDeclaration)]
 
     # Opcodes that use 16-bit arguments (jumps and jump-like)
     _JUMP_OPCODES = frozenset(
@@ -1087,7 +1095,7 @@ class Compiler:
             self._emit(OpCode.RETURN)
         else:
             # Block body: compile statements
-            for stmt in node.body.body:
+            for stmt in self._hoist_functions(node.body.body):
                 self._compile_statement(stmt)
             # Implicit return undefined
             self._emit(OpCode.RETURN_UNDEFINED)
@@ -1184,7 +1192,7 @@ class Compiler:
         self._outer_locals.pop()
 
         # Compile function body
-        for stmt in body.body:
+        for stmt in self._hoist_functions(body.body):
             self._compile_statement(stmt)
 
         # Implicit return undefined
